@@ -270,13 +270,19 @@ def fsPollStartOld : Op :=
     { eff := [.alloc], fault := some .alloc, undo := [.free] },
     { eff := [.reqReg, .enq, .hStart] } ]
 
-/-- `uv_fs_event_start` on a loop whose inotify descriptor exists (unix/linux.c:2662-2701):
+/-- `uv_fs_event_start` on a loop whose inotify descriptor exists (unix/linux.c:2662-2704):
 inotify_add_watch (creates a kernel watch when the path is new), then, for a new wd, the watcher_list
-allocation — whose failure returns UV_ENOMEM *without* inotify_rm_watch. -/
+allocation — whose failure removes the watch again (inotify_rm_watch, fix d34fc71) and returns UV_ENOMEM. -/
 def fsEventStart (newWd : Bool) : Op :=
   [ { eff := (if newWd then [.watchAdd] else []), fault := some .sys, undo := [], label := "sys:inotify_add_watch" } ] ++
-  (if newWd then [ { eff := [.alloc, .enq], fault := some .alloc, undo := [], label := "alloc" } ] else []) ++
+  (if newWd then [ { eff := [.alloc, .enq], fault := some .alloc, undo := [.watchRm], label := "alloc" } ] else []) ++
   [ { eff := [.hStart, .enq], label := "uv__handle_start" } ]
+
+/-- `uv_fs_event_start` before the fix (seeded revert L24): the ENOMEM return leaves the kernel watch behind -/
+def fsEventStartOld (newWd : Bool) : Op :=
+  [ { eff := (if newWd then [.watchAdd] else []), fault := some .sys, undo := [] } ] ++
+  (if newWd then [ { eff := [.alloc, .enq], fault := some .alloc, undo := [] } ] else []) ++
+  [ { eff := [.hStart, .enq] } ]
 
 /-- `uv_os_environ` (unix/core.c:1432-1484) for an environment of `n` well-formed entries: the array, then one
 strdup per entry; the `fail:` exit frees the names copied so far and the array (fix c8cf93f). -/
